@@ -78,6 +78,17 @@ func (w *World) exec(op Op) {
 	case "quiet":
 		w.quiet = true
 		w.x.suppress = true
+	case "retained":
+		w.settle()
+		w.checkRetained()
+	case "gcpass":
+		w.opGCPass(op)
+	case "rmrepo":
+		if w.root != "" {
+			w.settle()
+			_ = os.RemoveAll(filepath.Join(w.root, w.repoName(op.Repo)))
+			w.tainted[w.repoName(op.Repo)] = true
+		}
 	}
 	if gcPossible {
 		w.markCollectable()
@@ -109,11 +120,14 @@ func engineSeq(x *X) {
 		nv := len(x.out.Viol)
 		w.exec(op)
 		x.mixs(op.K + op.Mode + op.Act)
-		if len(x.out.Viol) > nv || x.stop {
+		x.noteViolations(nv)
+		if x.stop || (len(x.out.Viol) > nv && !x.resynced) {
 			break
 		}
+		x.resynced = false
 	}
-	if len(x.out.Viol) == 0 && !x.stop {
+	clean := !x.stop && (len(x.out.Viol) == 0 || x.allResynced)
+	if clean {
 		x.opIdx = len(ops)
 		w.settle()
 		if !w.quiet {
@@ -122,7 +136,7 @@ func engineSeq(x *X) {
 			w.checkLayout(false)
 		}
 	}
-	if len(x.out.Viol) == 0 {
+	if clean && !x.stop {
 		if !w.k.readOnly() {
 			w.markCollectable() // Close collects every open repository
 		}
